@@ -23,7 +23,7 @@ IDS = (11, 22)
 def cxx_show(p, i):
     n = p.name
     d = n if p.mode != "ptr" else "(*%s)" % n
-    if p.fam in ("native", "bool") and p.t == "T":
+    if p.fam in ("native", "bool") and p.t in ("T", "U", "V"):
         return "sh_t(%s);" % n
     if p.fam in ("native", "bool") and p.mode != "val" and p.intent == "out":
         return 'printf("_");'
@@ -73,6 +73,8 @@ def cxx_return(f):
         return ""
     if k == "native":
         return "return %s;" % lit(f.ret[1], c)
+    if k == "tparam":
+        return "return (%s)%s;" % (f.ret[1], lit("double", c))
     if k == "bool":
         return "return %s;" % ("true" if c else "false")
     if k == "enum":
@@ -122,7 +124,7 @@ def cxx_function(f, in_class):
         return "    ~%s() { last() = id; }" % f.cls
     else:
         body.append("return id;" if (in_class and f.name == "ident") else cxx_return(f))
-        head = "%s%s%s %s(%s)%s" % ("template<typename T> " if f.template else "", "static " if f.static else "",
+        head = "%s%s%s %s(%s)%s" % (("template<%s> " % ", ".join("typename " + t for t in f.tparams)) if f.template else "", "static " if f.static else "",
                                      cxxgen.ret_cxx(f.ret), f.name, ", ".join(params), " const" if f.const else "")
         if not in_class:
             head = "inline " + head if not f.template else head
@@ -134,6 +136,7 @@ def subject_header(spec):
            "#include <cstdio>", "#include <cstring>", "#include <string>",
            "static inline void sh_d(double v) { unsigned long long b; std::memcpy(&b, &v, 8); std::printf(\"%016llx\", b); }",
            'static inline void sh_t(int v) { std::printf("%lld", (long long)v); }',
+           'static inline void sh_t(long v) { std::printf("L%lld", (long long)v); }',
            "static inline void sh_t(double v) { sh_d(v); }",
            "enum Color { %s };" % ", ".join("%s = %d" % m for m in ENUM),
            "struct Pt { int x; double y; };"]
@@ -198,11 +201,22 @@ def emit_call(E, f, cname, ndef, tt, rnd, self_obj=None):
     allp = list(f.params) + [p for p, _ in f.defaults[:ndef]]
     for i, p in enumerate(allp):
         v = "v%d_%d" % (u, i)
-        t = tt if p.t == "T" else p.t
+        tm = cxxgen.Spec.tmap(f, tt)
+        t = tm.get(p.t, p.t)
+        tpl = p.t in tm
         if p.fam == "native":
             val = pick(DBL if t == "double" else INT_T[t], rnd, i)
             vals[p.name] = val
-            if p.mode == "val":
+            if tpl:
+                # sh_t marks the instantiated type: plain for int, L for long, 16 hex digits for double
+                r_ = ("L" if t == "long" else "") + rep(t, val)
+                if p.mode == "val":
+                    args.append(lit(t, val))
+                else:
+                    pre.append("%s %s = %s;" % (t, v, lit(t, val)))
+                    args.append("&" + v)
+                exp_in.append(r_)
+            elif p.mode == "val":
                 args.append(lit(t, val))
                 exp_in.append(rep(t, val))
             elif p.mode in ("pp", "pr"):
@@ -282,7 +296,8 @@ def emit_call(E, f, cname, ndef, tt, rnd, self_obj=None):
     callee = "C %d this=%s%s" % (f.fid, this, "".join(" p%d=%s" % (i, s) for i, s in enumerate(exp_in)))
     k = f.ret[0]
     c = f.consts.get("ret")
-    rt = tt if (len(f.ret) > 1 and f.ret[1] == "T") else (f.ret[1] if len(f.ret) > 1 else None)
+    tm = cxxgen.Spec.tmap(f, tt)
+    rt = tm.get(f.ret[1], f.ret[1]) if len(f.ret) > 1 else None
     lines = ["{"] + pre
     exp = [callee]
     rprint, rexp = "", ""
@@ -297,6 +312,9 @@ def emit_call(E, f, cname, ndef, tt, rnd, self_obj=None):
         rprint, rexp = 'printf("%d#%d", (int)(r == &rv), idr);', "1#7"
     elif k == "void":
         lines.append(call + ";")
+    elif k == "tparam":
+        lines.append("%s r = %s;" % (rt, call))
+        rprint, rexp = c_show_native(rt, "r"), rep(rt, c if rt == "double" else int(c))
     elif k == "native":
         lines.append("%s r = %s;" % (rt, call))
         rprint, rexp = c_show_native(rt, "r"), rep(rt, c)
@@ -527,7 +545,7 @@ def run(ctx, thorough):
                          {"yaml": spec.yaml()})
                 continue
             jobs.append((spec, d))
-            for sh_ in spec.overload_shapes():
+            for sh_ in spec.overload_shapes() + spec.variant_shapes():
                 shapes[sh_] = shapes.get(sh_, 0) + 1
         with ThreadPoolExecutor(max_workers=min(8, max(1, len(jobs)))) as ex:
             results = list(ex.map(lambda j: compile_and_run(j[1], j[0], rounds), jobs))
